@@ -57,10 +57,10 @@ def run(ctx):
         if o["m"] > 0:
             table[o["checker"]][(o["m"], int(o["value"]))] = o["reported"]
             lines_at[(o["checker"], o["m"])][int(o["value"])] = sorted(o.get("lines") or [])
-            # one measured construct per file: it is reported at most once, whatever the threshold
+            # one measured construct per file: several diagnostics for it are unusual but not excluded by the property (noted only;
+            # what the property demands - diagnostics nested along the threshold - is judged below on the sets of lines)
             if len(o.get("lines") or []) > 1:
-                ctx.fail("ReportedMoreThanOnce %s" % o["checker"], "%s.%s=%s reports the single construct of measure %d %d times (lines %s)"
-                         % (o["checker"], o["param"], o["value"], o["m"], len(o["lines"]), o["lines"]), {"obs": o})
+                ctx.notes.append("%s.%s=%s reports the single construct of measure %d %d times" % (o["checker"], o["param"], o["value"], o["m"], len(o["lines"])))
     # relaxing a threshold never adds a diagnostic line, tightening never removes one (the set of lines, not only 'any')
     for (c, m), by_n in lines_at.items():
         ns_ = sorted(by_n)
